@@ -605,15 +605,25 @@ def monitor_trackers(case, real):
         if not stopped and t1 >= t0:
             F = Fraction if exact else float
             sig = [F(tau0) + k * F(D) for k in range(len(calls) + 3)]
-            # scheduled times <= t_end must be served; the final handle (atol = 1e-6 dt) also serves a
-            # scheduled time in the sliver (t_end, t_end + 1e-6 dt): the code's round-off allowance
-            lo = sum(1 for x in sig if x <= F(t1) - F(tol))
+            # the code's own scheduled times: `_t_next += D` starting at tau0 (no catch-up for D >= dt), so
+            # "scheduled time <= t_end" is decided on exactly the numbers the code compares (no tolerance)
+            acc, a = [], tau0
+            for _ in range(len(calls) + 3):
+                acc.append(a)
+                a = a + D
+            lo = sum(1 for x in acc if x <= t1)
+            # the final handle (atol = 1e-6 dt) also serves a scheduled time in the sliver
+            # (t_end, t_end + 1e-6 dt): the code's round-off allowance
             hi = sum(1 for x in sig if x < F(t1) + F(EPS) * F(dt) + F(tol) + abs(F(case.get("delta") or 0.0)))
-            if case.get("N") is not None:
-                if not lo <= len(calls) <= hi:
+            if len(calls) < lo:
+                bad.append((f"every scheduled time <= t_end of constant tracker {i} is served", 
+                            {"calls": calls[-3:], "n_calls": len(calls), "t_final": tf},
+                            {"scheduled times <= t_end": lo, "last": acc[lo - 1], "t_end": t1}))
+            elif case.get("N") is not None:
+                if not len(calls) <= hi:
                     bad.append((f"constant tracker {i} is handled floor(T/D)+1 times on a whole range", len(calls),
                                 lo if lo == hi else f"{lo}..{hi}"))
-            elif not lo <= len(calls) <= hi + 1:
+            elif not len(calls) <= hi + 1:
                 bad.append((f"constant tracker {i} is handled floor(T/D)+1 times or once more", len(calls), f"{lo}..{hi + 1}"))
     # finalisation: every tracker exactly once, in order, on every path
     if real["finalized"] != list(range(n_tr)):
